@@ -291,6 +291,8 @@ func (r *Router) deployTargetsIntoService(service *Service, targetSlot TargetSlo
 	simYield("deploy.beforeInstall", lb)
 	err = r.installService(service)
 	if err != nil {
+		service.UpdateLoadBalancer(replaced, targetSlot)
+		lb.Dispose()
 		return err
 	}
 
